@@ -3,12 +3,15 @@ Deterministic sweep over system configurations x models x event histories, each
 run through the real ovniemu built from the tree; all .prv/.pcf/.row files are
 parsed and validated independently."""
 import os, itertools, json, glob
-from lib.common import Ctx, Build, Scratch, InfraError, pmap
+from lib.common import Ctx, Build, Scratch, InfraError, pmap, REPO
 from lib import emusrv, catalog, pv, obs
 from lib.emusrv import Ev, i32, i64, u32
 
 # emulator-defined state types: every non-zero value printed must have a label
 LABELLED = {4, 6, 7, 13, 20, 25, 30, 37, 39, 45, 50, 16, 40, 11, 36, 17, 41}
+
+
+EDGE_LABELS = []
 
 
 def configs(tier):
@@ -128,6 +131,10 @@ def histories(spec, cat, gold, model, tier):
             s = idx[first[0]]
             mid.append(Ev(s, M + "Yc", b"", 1, u32(1) + b"main\0"))
             mid.append(Ev(s, M + "Yc", b"", 1, u32(2) + ("solve_%d" % pid).encode() + b"\0"))
+            if EDGE_LABELS:
+                # a label whose colour id falls at the edge of the value range (found with the tree's own hash function)
+                mid.append(Ev(s, M + "Yc", b"", 1, u32(5) + EDGE_LABELS[pi % len(EDGE_LABELS)].encode() + b"\0"))
+                mid.append(Ev(s, M + "Tc", u32(5, 5)))
             # two types without a label: still two types, each with a (default) label in the .pcf
             mid.append(Ev(s, M + "Yc", b"", 1, u32(3) + b"\0"))
             mid.append(Ev(s, M + "Yc", b"", 1, u32(4) + b"\0"))
@@ -135,7 +142,7 @@ def histories(spec, cat, gold, model, tier):
             mid.append(Ev(s, M + "Tc", u32(2, 2)))
             mid.append(Ev(s, M + "Tc", u32(3, 3)))
             mid.append(Ev(s, M + "Tc", u32(4, 4)))
-            for tid in (1, 2, 3, 4):
+            for tid in (1, 2, 3, 4) + ((5,) if EDGE_LABELS else ()):
                 pay = u32(tid, 0) if M == "V" else u32(tid)
                 mid.append(Ev(s, M + "Tx", pay))
                 mid.append(Ev(s, M + "Te", pay))
@@ -221,6 +228,14 @@ def run(prop, tier):
         emu = build.tool("plain", "ovniemu")
         cat = catalog.load_events()
         gold = catalog.golden("enter_values.json")
+        try:
+            gs = build.harness("plain", "gid_search", ["gid_search.c"], extra=["-I", os.path.join(REPO, "src/emu"), "-I", os.path.join(REPO, "src")])
+            import subprocess
+            out = subprocess.run([gs, "2"], stdout=subprocess.PIPE, timeout=300).stdout.decode().split("\n")
+            EDGE_LABELS[:] = [l.split()[0] for l in out if l.strip()]
+        except (InfraError, OSError, subprocess.SubprocessError) as e:
+            ctx.part("edge-labels", skipped=str(e)[:200])
+        ctx.part("edge-labels", labels=list(EDGE_LABELS))
         models = ["ovni", "nosv", "nanos6", "nodes", "mpi", "tampi", "openmp", "kernel"]
         jobs = []
         for ci, spec in enumerate(configs(tier)):
